@@ -260,7 +260,11 @@ func TestVerif_C08_Pipeline(t *testing.T) {
 						rep.Diverge(key+":panic", fmt.Sprintf("the index pipeline panicked: %v", r), gk, nil, fmt.Sprint(r))
 					}
 				}()
+				before := rep.Evaluations
 				c08PipelineGroup(t, rep, lc, fix, gk, groups[gk], seed, variant, key, rnd, gi)
+				if rep.Evaluations == before {
+					rep.Eval("", nil) // the group was evaluated (and diverged before its cases were counted)
+				}
 			}()
 		}
 	}
